@@ -63,6 +63,40 @@ TOKEN_RE = re.compile(r"""
 ESCAPES = set("bfnrtv0'\"{\\u")
 
 
+_SIMPLE_ESC = {"b": "\b", "f": "\f", "n": "\n", "r": "\r", "t": "\t", "v": "\v", "0": "\0", "'": "'", '"': '"', "{": "{",
+               "\\": "\\"}
+
+
+def string_value(lit: str):
+    """the string a Safe-DS STRING token denotes (None if it is no well-formed token)"""
+    if len(lit) < 2 or lit[0] != '"' or lit[-1] != '"':
+        return None
+    out, j, body = [], 0, lit[1:-1]
+    while j < len(body):
+        c = body[j]
+        if c == '"' or c in "\n\r":
+            return None
+        if c == "\\":
+            if j + 1 >= len(body):
+                return None
+            e = body[j + 1]
+            if e == "u":
+                h = body[j + 2:j + 6]
+                if len(h) != 4 or any(x not in "0123456789abcdefABCDEF" for x in h):
+                    return None
+                out.append(chr(int(h, 16)))
+                j += 6
+                continue
+            if e not in _SIMPLE_ESC:
+                return None
+            out.append(_SIMPLE_ESC[e])
+            j += 2
+        else:
+            out.append(c)
+            j += 1
+    return "".join(out)
+
+
 def lex(text: str) -> list[Tok]:
     toks: list[Tok] = []
     i, n = 0, len(text)
